@@ -431,6 +431,9 @@ func (d *scriptedDelivery) Commit(ctx context.Context) error {
 	if d.tx.Closed {
 		d.t.violate(s, "closed-twice/Commit", "%s tx%d: Commit on a closed delivery (commits=%d aborts=%d)", d.t.Label, d.tx.N, d.tx.Commits, d.tx.Aborts)
 	}
+	if d.tx.BodyCall && !d.tx.Partial && d.tx.BodyRes != OK {
+		d.t.violate(s, "commit-after-failed-body", "%s tx%d: Commit although Body had failed (%v)", d.t.Label, d.tx.N, d.tx.BodyRes)
+	}
 	d.tx.Commits++
 	d.tx.Closed = true
 	if s != nil {
